@@ -139,6 +139,7 @@ struct Obj {
   int users = 0;                       // container: live clippers that added it since their last Clear
   // ---- history bookkeeping for the distinct-nontrivial measure
   int n_exec = 0, n_clear = 0, n_add = 0, n_opt = 0, n_reuse = 0;
+  bool dup_reuse = false;              // the same container was added twice since the last Clear
   std::string hist;                    // one letter per operation applied to this object (distinct-history measure)
   int sticky_err = 0;                  // error flags raised by rejected input so far (ErrorCode() is documented as cumulative)
 };
@@ -356,11 +357,15 @@ static void h_c_add(Ctx& c, const Op& op, int idx, OpResult& r) {
 static void h_c_reuse(Ctx& c, const Op& op, int idx, OpResult& r) {
   Obj* o = c.get(op.o); Obj* k = c.get(op.o2);
   if (!o || !k || (o->type != T_C64 && o->type != T_CD) || k->type != T_CONT) SKIP(r);
-  for (int s : o->using_conts) if (s == op.o2) SKIP(r);    // one clipper never adds the same container twice
+  // Adding the same container twice to one clipper is not forbidden by the API; plans do it only when asked to
+  // (i[0] == 1), because on the current tree the next Execute does not terminate (known finding C10-F9)
+  bool dup = false; for (int s : o->using_conts) if (s == op.o2) dup = true;
+  if (dup && ai(op, 0) != 1) SKIP(r);
+  if (dup) o->dup_reuse = true;
   if (o->type == T_C64) { Scope sc(idx); o->c64->AddReuseableData(*k->cont); }
   else { Scope sc(idx); o->cd->AddReuseableData(*k->cont); }  // integer vertices are taken as they are (no scaling)
   for (const Batch& b : k->batches) { o->batches.push_back(b); o->batches.back().raw64 = true; } // snapshot of the container's content at this moment
-  o->using_conts.push_back(op.o2); if (op.o2 < 100) ++k->users; { ++o->n_reuse; o->hist += 'r'; }   // shared (set-up) containers are read-only for tasks, also in the model
+  if (!dup) { o->using_conts.push_back(op.o2); if (op.o2 < 100) ++k->users; } { ++o->n_reuse; o->hist += 'r'; }   // shared (set-up) containers are read-only for tasks, also in the model
 }
 static void h_c_pc(Ctx& c, const Op& op, int idx, OpResult& r) {
   Obj* o = c.get(op.o); if (!o) SKIP(r);
@@ -417,7 +422,7 @@ static void h_c_clear(Ctx& c, const Op& op, int idx, OpResult& r) {
     o->batches.clear(); { ++o->n_clear; o->hist += 'C'; } return;
   }
   else SKIP(r);
-  o->batches.clear(); release_conts(c, *o); { ++o->n_clear; o->hist += 'C'; }
+  o->batches.clear(); release_conts(c, *o); o->dup_reuse = false; { ++o->n_clear; o->hist += 'C'; }
 }
 
 static void fill_junk(Paths64& p) { p.push_back(Path64{Point64(1, 2), Point64(3, 4), Point64(5, 6)}); p.push_back(Path64()); }
@@ -428,6 +433,7 @@ static void h_c_exec(Ctx& c, const Op& op, int idx, OpResult& r) {
   ClipType ct = ct_of(ai(op, 0)); FillRule fr = fr_of(ai(op, 1));
   int outmode = (int)(((ai(op, 2) % 4) + 4) % 4); bool junk = ai(op, 3) != 0;
   bool used = o->n_exec > 0 || o->n_clear > 0 || o->n_reuse > 0;
+  if (o->dup_reuse) { sim_status_flag(1); sim_limit_op_budget(3000000); }
   if (o->type == T_C64) {
     std::unique_ptr<ClipOut64> a_holder(new ClipOut64()); ClipOut64& a = *a_holder;
     if (junk) { fill_junk(a.closed); fill_junk(a.open); a.tree.AddChild(Path64{Point64(9, 9), Point64(8, 8), Point64(7, 1)}); }
@@ -472,7 +478,11 @@ static void h_c_exec(Ctx& c, const Op& op, int idx, OpResult& r) {
     r.digest = hash_out<double>(a.ret, a.err, a.closed, a.open, outmode, a.tree);
     if (c.model) {
       ClipOutD b; ref_execD(*o, ct, fr, outmode, b);
-      b.err |= o->sticky_err;
+      // ErrorCode() after rejected input: the property does not say whether the flag of an earlier rejected batch is
+      // still reported (cumulative, as today) or forgotten (e.g. reset by Clear()); both are accepted. Everything
+      // else - return value, paths, tree - must equal the fresh object bit for bit.
+      int fresh_err = b.err;
+      if (a.err == (fresh_err | o->sticky_err)) b.err = a.err;
       if (outmode == 0 || outmode == 2) b.open.clear();
       uint64_t hb = hash_out<double>(b.ret, b.err, b.closed, b.open, outmode, b.tree);
       r.compared = true; r.nontrivial = used; r.shape = hist_shape("ClipperD", *o, outmode < 2 ? "paths" : "tree");
